@@ -451,18 +451,18 @@ COMMON_ASSUMPTIONS = [
 ]
 ASSUMPTIONS = {}
 RULES = {
-    "C11": "world = (global rectangular integer-valued matrices A (n x m), B (m x k), R = 1..8 simulated ranks, contiguous row/column partitions drawn from all compositions incl. empty ranks, nt per rank, delivery faults late_send_read / recv_poison / rendezvous, schedule incl. a stalled rank, shuffled Waitall order); every rank runs: construction from strips, transpose, product, scale+sort_rows, copy into a float backend, Gershgorin and power estimates, spmv with beta=0 into NaN and repeated spmv on the same object, residual, inner product; results are assembled in harness memory and compared exactly with the serial kernels; non-trivial = R>=2 and >=1 message; distinct by hash(matrices, partitions, fault switches, schedule deviations)",
-    "C12": "world = (SPD M-matrix n 20..900, R = 1..8 simulated ranks, contiguous row distribution incl. empty ranks, mpi::amg through the run-time wrappers: coarsening aggregation|smoothed_aggregation (PMIS), 9 relaxations, 8 solvers, skyline_lu direct solver, merge repartitioner on/off with small min_per_proc, coarse_enough 2..40, delivery faults and schedules as in C11); oracles: no deadlock (every rank terminates), identical (iterations, residual) bits on all ranks, gathered solution has the reported true global residual, Krylov solvers reach 1e-8 in 200 iterations and Richardson does not diverge; non-trivial = R>=2 and >=1 message; distinct by hash(matrix, partition, configuration, fault switches, schedule deviations)",
-    "C01": "case = one coupled solve (4 coarsenings x 9 relaxations x 8 solvers x preconditioning side through the run-time interface, tolerances 1e-3..1e-9, budgets 1..100, restart/L/s parameters, zero/random/large initial guess) in a simulated world (nt 1..32, seeded schedule, dirtied heap, optional warm-up solve on the same object); oracle: independent long-double residual of the returned x from the caller's arrays (preconditioned with the same object for left preconditioning) vs the reported one, iteration budget, non-finite outcomes reported as such; 45% of the cases are the narrow model family (isotropic grid diffusion, contrast <= 8, forced multilevel, default parameters) where every Krylov combination must reach 1e-8 in < 100 iterations and Richardson must converge; non-trivial = >=1 iteration; distinct by hash(matrix, configuration, nt, seeds)",
+    "C11": "world = (global rectangular integer-valued matrices A (n x m), B (m x k), R = 1..8 simulated ranks, contiguous row/column partitions drawn from all compositions incl. empty ranks, nt per rank, delivery faults late_send_read / recv_poison / rendezvous, schedule incl. a stalled rank, shuffled Waitall order); every rank runs: construction from strips, transpose, product, scale+sort_rows, copy into a float backend, Gershgorin and power estimates, spmv with beta=0 into NaN and repeated spmv on the same object, residual, inner product; results are assembled in harness memory and compared exactly with the serial kernels; non-trivial = R>=2 and >=1 message; distinct by hash(matrices, partitions, fault switches, schedule deviations); square matrices conformal or with independent column distribution; scaled Gershgorin / scaled power estimate; keep_src history (move_to_backend(keep_src), then transpose / product / copy / spmv of the same object)",
+    "C12": "world = (SPD M-matrix n 20..900, R = 1..8 simulated ranks, contiguous row distribution incl. empty ranks, mpi::amg through the run-time wrappers: coarsening aggregation|smoothed_aggregation (PMIS), 9 relaxations, 8 solvers, skyline_lu direct solver, merge repartitioner on/off with small min_per_proc, coarse_enough 2..40, delivery faults and schedules as in C11); oracles: no deadlock (every rank terminates), identical (iterations, residual) bits on all ranks, gathered solution has the reported true global residual, Krylov solvers reach 1e-8 in 200 iterations and Richardson does not diverge; non-trivial = R>=2 and >=1 message; distinct by hash(matrix, partition, configuration, fault switches, schedule deviations); 30% of the worlds run mpi::subdomain_deflation (1-2 deflation vectors) or mpi::block_preconditioner (local AMG or smoother) instead of mpi::amg; 35% of the plain-aggregation worlds supply 1-3 near-null-space vectors (2-3 level hierarchies, repartitioning off) and check P*(P^T*B) = B chained over the levels; 30% vary cycle / component parameters (no convergence clause there)",
+    "C01": "case = one coupled solve (4 coarsenings x 9 relaxations x 8 solvers x preconditioning side through the run-time interface, tolerances 1e-3..1e-9, budgets 1..100, restart/L/s parameters, zero/random/large initial guess) in a simulated world (nt 1..32, seeded schedule, dirtied heap, optional warm-up solve on the same object); oracle: independent long-double residual of the returned x from the caller's arrays (preconditioned with the same object for left preconditioning) vs the reported one, iteration budget, non-finite outcomes reported as such; 45% of the cases are the narrow model family (isotropic grid diffusion, contrast <= 8, forced multilevel, default parameters) where every Krylov combination must reach 1e-8 in < 100 iterations and Richardson must converge; non-trivial = >=1 iteration; distinct by hash(matrix, configuration, nt, seeds); a fifth of the non-model cases are complex (Hermitian or not) or 2x2 block valued systems, half of them vary further component parameters by seed (varied_parameter_worlds)",
     "C02": "case = (SPD M-matrix from grid1d/2d/3d or random graph, n 8..300, coarsening x relaxation through the run-time interface, ncycle 1|2, npre=npost 1..3, pre_cycles 1|2, coarse_enough, max_levels, direct_coarse, nt, schedule); B is extracted by n applications to unit vectors in shuffled order interleaved with applications to random / 1e200 / zero / NaN / Inf vectors, then every column once more; oracles: both extractions bitwise equal, linearity on random pairs, B(2^k A) = 2^-k B(A) bitwise (not ILUT), and for symmetric smoothers B=B^T, lambda_min(B)>0, rho(I-BA)<1 by Eigen; non-trivial = >=2 levels and n>=8; distinct by hash(matrix, configuration, application order seed)",
     "C06": "case = (smoother in damped_jacobi|gauss_seidel|spai0|spai1|chebyshev|ilu0|iluk|ilup|ilut with drawn parameters, matrix: M-matrix / convection-diffusion / structurally non-symmetric / disconnected / positive off-diagonal family or tridiagonal / arrow, rows sorted or diagonal-first, scalar or 2x2 non-commuting block values, nt 1..32 (>=4 takes the level-scheduled paths), schedule); each case runs under two schedules; oracles: parallel level-scheduled solve == serial (bitwise for Gauss-Seidel, rounding for ILU), schedule independence, exact solution is a fixed point, closed formulas (Jacobi, Gauss-Seidel forward/backward, SPAI-0), (LU)_ij = a_ij on the pattern of A via extracted M (n<=40, Eigen), exact inverse on tridiagonal/arrow and for ILU(k>n), (LU)_ij = a_ij on the symbolic pattern of A^(k+1) for ILUP, SPAI-1 normal equations and pattern, Chebyshev sweep affine about the solution and equal to the degree-d Chebyshev polynomial q(A) e for the Gershgorin interval [lower*hi, higher*hi] (dense matrix recurrence, n<=48, scaled and unscaled), apply() of every smoother equals the sweep(s) from x = 0 (without the damping for Jacobi / ILU); non-trivial = n>=3; distinct by hash(matrix, smoother, parameters, nt)",
     "C07": "case = (value type float|double|long double|complex|2x2 block or backend block_crs|builtin_hybrid|Eigen, shape incl. 0 rows, rectangular, sizes not divisible by the block size, coefficients in {0,1,-1,2,-3}, output poisoned with NaN/+Inf/-Inf wherever its coefficient is zero, nt 1..32, schedule); primitives spmv, residual, axpby, axpbypcz, vmul, lin_comb (alpha zero and non-zero), copy, clear, inner_product (conjugate-linear in the second argument) on scalar-like and on 2x2 block vectors (vmul with a block diagonal), scalar vectors in place of block vectors; integer-valued data so that the formula is exact in every type and equality is exact; non-trivial = n>=1; distinct by hash(seeds, type, shape, nt, coefficients)",
-    "C08": "case = (kernel in transpose|product|sum|scale+sort_rows|diagonal|pointwise_matrix|copy/convert constructors|gershgorin|power method|complex transpose+product, shapes incl. 0 rows / empty rows / rectangular, integer-valued entries so that the dense model is exact, sorted or unsorted rows where permitted, nt 1..32 (<=16 marker-based, >=17 row-merge SpGEMM; every static chunking), schedule strategy); oracle: dense exact model, well-formed CRS, no duplicates for sorted inputs, Gershgorin >= rho(A) and power estimate <= sigma_max via Eigen (n<=60); non-trivial = >=2 rows; distinct by hash(matrix seed, shapes, kernel, nt, flags)",
-    "C03": "script = construct amg<recorder<coarsening>, recording spai0> (4 coarsenings, eps_strong/over_interp/relax/trunc/block_size varied, coarse_enough 1..3000, max_levels, direct_coarse, nt in {1,2,5,16 | 17,24,32} i.e. both SpGEMM algorithms) on a generated square matrix, then 1..8 rebuild() calls with perturbed / power-of-two scaled / sign-flipped / stronger-diagonal / original matrices and wrong-sized ones; invariants per level: A_c = R*A*P*float(1/over_interp) against a dense long-double model with an entrywise rounding bound, R = P^T bitwise (not emin), sizes strictly decrease, coarsest level direct iff <= coarse_enough and direct_coarse; per rebuild: P/R unchanged, coarse operators Galerkin again, action on probe vectors bitwise equal to a fresh amg<replayer<coarsening>> built from A' with the recorded P/R, rebuild(A0) restores the original action; non-trivial = >=2 levels and >=1 rebuild that changes the matrix; distinct by hash(matrix, configuration, script, SpGEMM algorithm)",
-    "C15": "script = 2..12 operations on ONE solver object (make_solver<amg|relaxation, run-time solver>, all 9 solver types, both preconditioning sides, restart lengths 2..30) out of solve / solve with alternative matrix / precond.apply / rebuild and failing variants (zero, NaN, Inf, overflowing right-hand sides or guesses, zero alternative matrix, maxiter 1..4, preconditioner wrapper that throws / writes NaN / writes Inf at its k-th call); model: a freshly constructed object (rebuilds replayed) executes the same single operation, results compared bitwise incl. exception type; non-trivial = >=2 operations; distinct by hash(matrix, script, configuration)",
-    "C19": "case = (format mm_sparse|mm_dense|bin_crs|bin_dense, value type double|float|complex|integer, index type, shape, row range, mode); modes: fault-free round trip (full + row range, bitwise vs the written model, symmetric storage), explicit fault ops on the image (truncate/flip/set/zero_tail/drop_line/dup_line, 1-3 per case, biased to banner/size line/index fields/ptr section), exhaustive truncation sweep of one small image (every byte offset), value-kind and storage-kind mismatch, corrupted banner keyword, inconsistent size fields; evaluations counts cases (a truncation sweep is one case with one read per byte offset, reads are in counters.damaged_reads); non-trivial = image actually damaged / non-empty matrix; distinct by hash(image bytes, ops, range)",
-    "C10": "world = (valid input incl. 1x1/diagonal/disconnected/positive-offdiagonal/Dirichlet-row/n<coarse_enough/max_levels=1, kind in amg|relaxation-as-preconditioner|zero-copy amg|skyline_lu, run-time configuration, nt, pre-history of 0-3 unrelated solves); each world is executed under 4 simulated heaps (clean + 3 drawn from fill 00/ff/aa/snan/random x LIFO recycling x address shift) plus a ledger pass, and once per world under ASan+UBSan in the asan stage; non-trivial = degenerate input or >=2 levels; distinct by hash(matrix, configuration)",
-    "C09": "world = (component out of vector ops, inner product, product, structural kernels, spectral radius, Gauss-Seidel, ILU solves, hierarchy (4 coarsenings, near-nullspace vectors), full solve through the run-time interface, block adapters, tentative_prolongation; matrix family/size/seed; nt 1..32; schedule strategy+seed); each case runs a reference world (nt=1 or 17, canonical), the world under test and a second schedule; plain stage: scheduling points are forks, barriers, critical sections, singles; trace stage: additionally every instrumented memory access inside a parallel region is a seeded preemption point and an event for the happens-before conflict detector, candidates are confirmed by a directed re-run with the two accesses in the opposite order; non-trivial = nt>=2, >=1 deviation from the canonical schedule taken, >=2 rows; distinct by hash(matrix, component, nt, deviation list, configuration)",
+    "C08": "case = (kernel in transpose|product|sum|scale+sort_rows|diagonal|pointwise_matrix|copy/convert constructors|gershgorin|power method|complex transpose+product, shapes incl. 0 rows / empty rows / rectangular, integer-valued entries so that the dense model is exact, sorted or unsorted rows where permitted, nt 1..32 (<=16 marker-based, >=17 row-merge SpGEMM; every static chunking), schedule strategy); oracle: dense exact model, well-formed CRS, no duplicates for sorted inputs, Gershgorin >= rho(A) and power estimate <= sigma_max via Eigen (n<=60); non-trivial = >=2 rows; distinct by hash(matrix seed, shapes, kernel, nt, flags); product additionally through direct spgemm_saad / spgemm_rmerge calls at every nt; complex product against an exact model; block_matrix adapter / unblock_matrix for 2x2..4x4 blocks",
+    "C03": "script = construct amg<recorder<coarsening>, recording spai0> (4 coarsenings, eps_strong/over_interp/relax/trunc/block_size varied, coarse_enough 1..3000, max_levels, direct_coarse, nt in {1,2,5,16 | 17,24,32} i.e. both SpGEMM algorithms) on a generated square matrix, then 1..8 rebuild() calls with perturbed / power-of-two scaled / sign-flipped / stronger-diagonal / original matrices and wrong-sized ones; invariants per level: A_c = R*A*P*float(1/over_interp) against a dense long-double model with an entrywise rounding bound, R = P^T bitwise (not emin), sizes strictly decrease, coarsest level direct iff <= coarse_enough and direct_coarse; per rebuild: P/R unchanged, coarse operators Galerkin again, action on probe vectors bitwise equal to a fresh amg<replayer<coarsening>> built from A' with the recorded P/R, rebuild(A0) restores the original action; non-trivial = >=2 levels and >=1 rebuild that changes the matrix; distinct by hash(matrix, configuration, script, SpGEMM algorithm); a fifth of the scripts are complex or 2x2-block valued hierarchies (R = P^H entrywise, Galerkin in the value type's algebra, one rebuild)",
+    "C15": "script = 2..12 operations on ONE solver object (make_solver<amg|relaxation, run-time solver>, all 9 solver types, both preconditioning sides, restart lengths 2..30) out of solve / solve with alternative matrix / precond.apply / rebuild and failing variants (zero, NaN, Inf, overflowing right-hand sides or guesses, zero alternative matrix, maxiter 1..4, preconditioner wrapper that throws / writes NaN / writes Inf at its k-th call); model: a freshly constructed object (rebuilds replayed) executes the same single operation, results compared bitwise incl. exception type; non-trivial = >=2 operations; distinct by hash(matrix, script, configuration); object types: make_solver<amg>, make_solver<relaxation>, deflated_solver<amg> (1-2 vectors); additional operation outer_apply; 40% of the scripts vary component parameters by seed",
+    "C19": "case = (format mm_sparse|mm_dense|bin_crs|bin_dense, value type double|float|complex|integer, index type, shape, row range, mode); modes: fault-free round trip (full + row range, bitwise vs the written model, symmetric storage), explicit fault ops on the image (truncate/flip/set/zero_tail/drop_line/dup_line, 1-3 per case, biased to banner/size line/index fields/ptr section), exhaustive truncation sweep of one small image (every byte offset), value-kind and storage-kind mismatch, corrupted banner keyword, inconsistent size fields; evaluations counts cases (a truncation sweep is one case with one read per byte offset, reads are in counters.damaged_reads); non-trivial = image actually damaged / non-empty matrix; distinct by hash(image bytes, ops, range); size-line fields moved by one (valid-or-throws), crs_size / dense_size / mm_reader::is_* queries in the round trip",
+    "C10": "world = (valid input incl. 1x1/diagonal/disconnected/positive-offdiagonal/Dirichlet-row/n<coarse_enough/max_levels=1, kind in amg|relaxation-as-preconditioner|zero-copy amg|skyline_lu, run-time configuration, nt, pre-history of 0-3 unrelated solves); each world is executed under 4 simulated heaps (clean + 3 drawn from fill 00/ff/aa/snan/random x LIFO recycling x address shift) plus a ledger pass, and once per world under ASan+UBSan in the asan stage; non-trivial = degenerate input or >=2 levels; distinct by hash(matrix, configuration); half of the worlds vary the component parameters by seed (varied_parameter_worlds)",
+    "C09": "world = (component out of vector ops, inner product, product, structural kernels, spectral radius, Gauss-Seidel, ILU solves, hierarchy (4 coarsenings, near-nullspace vectors), full solve through the run-time interface, block adapters, tentative_prolongation; matrix family/size/seed; nt 1..32; schedule strategy+seed); each case runs a reference world (nt=1 or 17, canonical), the world under test and a second schedule; plain stage: scheduling points are forks, barriers, critical sections, singles; trace stage: additionally every instrumented memory access inside a parallel region is a seeded preemption point and an event for the happens-before conflict detector, candidates are confirmed by a directed re-run with the two accesses in the opposite order; non-trivial = nt>=2, >=1 deviation from the canonical schedule taken, >=2 rows; distinct by hash(matrix, component, nt, deviation list, configuration); 35% of the Gauss-Seidel / ILU cases use an enumerated 3x3..5x5 sparsity pattern (drawn in quick, walked by run index in thorough); 40% of the solve cases vary component parameters",
 }
 
 if __name__ == "__main__":
